@@ -225,7 +225,38 @@ def ill_skeletons():
     x = lambda T=None: Var('x', T)
     f = Var('f', TFun(NatType, NatType))
     p = Var('p', BoolType)
-    return [Comb(x(), x()), Abs('z', None, Comb(Bound(0), Bound(0))), Comb(f, p), Comb(Comb(Const('plus', None), p), Var('y', NatType)),
+    from kernel.type import TVar
+    extra = []
+    # occurs-check cycles closing through n unifications: v0 v1 & v1 v2 & ... & v(n-1) v0, bare / under a predicate / with bound variables
+    conj = lambda a, b: Comb(Comb(Const('conj', None), a), b)
+    P = Var('P', TFun(NatType, BoolType))
+    for n in (1, 2, 3, 4, 5):
+        for wrap in ('bare', 'pred', 'bound'):
+            if wrap == 'bound':
+                app = [Comb(Bound(n - 1 - i), Bound(n - 1 - (i + 1) % n)) for i in range(n)]
+            else:
+                vs = [Var('v%d' % i, None) for i in range(n)]
+                app = [Comb(Var('v%d' % i, None), Var('v%d' % ((i + 1) % n), None)) for i in range(n)]
+            if wrap == 'pred':
+                app = [Comb(P, a) for a in app]
+            body = app[0]
+            for a in app[1:]:
+                body = conj(body, a)
+            if wrap == 'bound':
+                for i in range(n):
+                    body = Abs('b%d' % (n - 1 - i), None, body)
+            extra.append(body)
+    # clashes between distinct concrete types (including distinct type variables) at annotated variables
+    A, B = TVar('a'), TVar('b')
+    Ts = [NatType, BoolType, A, B, TFun(NatType, NatType), TFun(A, A), TFun(A, B)]
+    for T1 in Ts:
+        for T2 in Ts:
+            if T1 != T2:
+                extra.append(Comb(Comb(Const('equals', None), Var('u', T1)), Var('v', T2)))
+                extra.append(Comb(Var('F', TFun(T1, BoolType)), Var('v', T2)))
+                extra.append(Comb(Abs('z', T1, Bound(0)), Var('v', T2)))
+                extra.append(Comb(Abs('z', None, Comb(Comb(Const('equals', None), Bound(0)), Var('u', T1))), Var('v', T2)))
+    return extra + [Comb(x(), x()), Abs('z', None, Comb(Bound(0), Bound(0))), Comb(f, p), Comb(Comb(Const('plus', None), p), Var('y', NatType)),
             Comb(Var('x', NatType), Var('x', BoolType)), Comb(Comb(Const('equals', None), Var('w', None)), Comb(Var('w', None), Var('y', NatType))), Comb(Const('Suc', None), p),
             Comb(Comb(Const('equals', None), f), p), Comb(Abs('z', NatType, Bound(0)), p)]
 
